@@ -20,23 +20,31 @@ TRUSTED = ['rustc 1.97-nightly MIR construction (mir-opt-level=0)', 'aead / aes-
 ASSUME = ['dependencies behave as documented', 'no unsafe code in hpke (checked by C18 R18.1)']
 
 
-def check_site(rep, facts, si, role):
-    """rules on one sealing (role='seal') or opening (role='open') body. Rule ids are R04.x; C05 re-labels."""
-    R = (lambda n: 'R04.%d' % n) if role == 'seal' else (lambda n: {2: 'R05.7', 3: 'R05.4', 4: 'R05.2'}.get(n, 'R05.%d' % n))
-    a, fn = si.a, si.key
-    # ---- R04.2 nonce argument
+def nonce_helper_call(si):
+    """the nonce argument of the AEAD call as a call of a local helper on (&self.base_nonce, &self.seq):
+    -> (nonce value, helper call term, helper key | None, helper args, indexes of base_nonce args, indexes of seq args)"""
+    a = si.a
     nonce = si.args[1] if len(si.args) > 1 else ('unknown', 'no nonce arg')
     nv = a.deref_val(nonce, si.point)
     hv = nv
     if hv[0] == 'field' and hv[1] == '0':
         hv = hv[2]
-    ok2 = False
-    helper = None
     if hv[0] == 'call' and hv[4] and hv[4][3]:
-        helper = hv[4][3]
         hargs = hv[2]
         bidx = [i for i, x in enumerate(hargs) if field_ref_of_self(x, 'base_nonce')]
         sidx = [i for i, x in enumerate(hargs) if field_ref_of_self(x, 'seq')]
+        return nv, hv, hv[4][3], hargs, bidx, sidx
+    return nv, hv, None, [], [], []
+
+
+def check_site(rep, facts, si, role):
+    """rules on one sealing (role='seal') or opening (role='open') body. Rule ids are R04.x; C05 re-labels."""
+    R = (lambda n: 'R04.%d' % n) if role == 'seal' else (lambda n: {2: 'R05.7', 3: 'R05.4', 4: 'R05.2'}.get(n, 'R05.%d' % n))
+    a, fn = si.a, si.key
+    # ---- R04.2 nonce argument
+    nv, hv, helper, hargs, bidx, sidx = nonce_helper_call(si)
+    ok2 = False
+    if helper is not None:
         ok2 = len(hargs) == 2 and len(bidx) == 1 and len(sidx) == 1
         found = '%s(%s)' % (helper, ', '.join(pp(x) for x in hargs))
         if ok2:
